@@ -284,8 +284,8 @@ NestKinds == [
               close |-> <<";", "}">>],
   stmts  |-> [core |-> <<"break">>, nts |-> {"Stmt"}, open |-> <<"x", "=", "y", ";">>, close |-> <<>>],
   ptr    |-> [core |-> <<"foo">>, nts |-> {"Type"}, open |-> <<"ptr">>, close |-> <<>>],
-  slice  |-> [core |-> <<"base", ".", "u8">>, nts |-> {"Type"}, open |-> <<"slice">>, close |-> <<>>],
-  array  |-> [core |-> <<"base", ".", "u8">>, nts |-> {"Type"}, open |-> <<"array", "[", "2", "]">>, close |-> <<>>],
+  slice  |-> [core |-> <<"foo">>, nts |-> {"Type"}, open |-> <<"slice">>, close |-> <<>>],
+  array  |-> [core |-> <<"foo">>, nts |-> {"Type"}, open |-> <<"array", "[", "2", "]">>, close |-> <<>>],
   list   |-> [core |-> <<"1">>, nts |-> {"ConstVal"}, open |-> <<"[">>, close |-> <<"]">>],
   fields |-> [core |-> <<>>, nts |-> {"Fields"}, open |-> <<"m", ":", "base", ".", "u8", ",">>, close |-> <<>>],
   decls  |-> [core |-> <<"pri", "status", "\"#bad\"">>, nts |-> {"Decl"}, open |-> <<"pri", "status", "\"#bad\"", ";">>, close |-> <<>>]
